@@ -324,6 +324,83 @@ static int dispatch()
             }
         }
     }
+    // built-in commands on the host classes, wherever the class's table holds no built-in
+    // handler (built-in handlers have side effects and cannot report their identity): the
+    // call must be rejected
+    {
+        nm.SetFilterMode(namespaceFilterMode_e::None);
+        std::set<const ClassDef*> hostSet;
+        for (const HostCls& h : hostClss()) hostSet.insert(h.get());
+        std::set<const EventDef*> hostDefs;
+        for (const HostEv& h : hostEvs()) hostDefs.insert(h.def);
+        std::set<std::string> names;
+        for (const EventDef* e = EventDef::GetHead(); e; e = e->GetNext())
+            if (!hostDefs.count(e)) names.insert(e->GetAttributes().GetString());
+        const std::vector<ClassDef*> all = classList();
+        for (size_t ci = 0; ci < inst.size(); ++ci) {
+            const ClassDef* cd = hostClss()[ci].get();
+            for (const std::string& base : names) {
+                for (int variant = 0; variant < 2; ++variant) {
+                    const std::string sp = variant ? upperOf(base) : base;
+                    for (int kind = 0; kind < 4; ++kind) {
+                        const eventNum_t num = resolve(es, sp.c_str(), kind);
+                        if (num) {
+                            const ResponseDefClass* r = cd->GetResponse(num);
+                            bool builtinHandler = false;
+                            if (r) {
+                                builtinHandler = true;
+                                for (const ClassDef* c : all) {
+                                    if (!hostSet.count(c)) continue;
+                                    const ResponseDefClass* b = c->GetResponseList();
+                                    if (r >= b && r < b + countResponses(c)) builtinHandler = false;
+                                }
+                            }
+                            if (builtinHandler) continue;
+                        }
+                        g_hitClass = nullptr; g_hitIdx = -1; g_hits = 0;
+                        std::string res;
+                        try { Event ev(num); inst[ci]->ProcessScriptEvent(ev); res = "Silent"; }
+                        catch (const ListenerErrors::EventNotFound&) { res = "NotFound"; }
+                        catch (const ListenerErrors::EventListenerFailed&) { res = "Unsupported"; }
+                        catch (const std::exception& e) { res = std::string("Other:") + typeid(e).name(); }
+                        catch (...) { res = "Other:unknown"; }
+                        if (g_hits == 1 && res == "Silent") res = std::string("H ") + g_hitClass + " " + std::to_string(g_hitIdx);
+                        else if (g_hits != 0) res = "Anomaly:hits=" + std::to_string(g_hits) + ":" + res;
+                        line("q %s %c N - S %s %u %s", hostClss()[ci].name, kindLetter(kind), sp.c_str(), (unsigned)num, res.c_str());
+                        ++nq;
+                    }
+                }
+            }
+        }
+    }
+    // probe of FindEventInfo(eventName_t) through a caller: `commanddelay 0 <command>` posts the
+    // command for later delivery; for every host statement command and the first host class
+    // that handles it: is it pending afterwards?
+    {
+        const eventNum_t cd = es.FindNormalEventNum("commanddelay");
+        size_t topIdx = 0;
+        for (const EventDef* e = EventDef::GetHead(); e; e = e->GetNext())
+            topIdx = std::max(topIdx, (size_t)es.GetEventConstName(e->GetAttributes().GetString()));
+        std::set<size_t> done;
+        for (const HostEv& h : hostEvs()) {
+            const size_t idx = es.GetEventConstName(h.name);
+            const eventNum_t num = es.FindNormalEventNum(h.name);
+            if (!cd || !num || !done.insert(idx).second) continue;
+            for (size_t ci = 0; ci < inst.size(); ++ci) {
+                if (!hostClss()[ci].get()->GetResponse(num)) continue;
+                nm.SetFilterMode(namespaceFilterMode_e::None);
+                Event ev(cd);
+                ev.AddFloat(0.f);
+                ev.AddString(h.name);
+                const bool ok = inst[ci]->ProcessEvent(ev);
+                const EventDef* def = es.GetEventDef(num);
+                const bool pending = def && inst[ci]->EventPending(*def);
+                inst[ci]->CancelPendingEvents();
+                line("cmddelay %s %s %zu %d %d %d", hostClss()[ci].name, h.name, idx, idx == topIdx ? 1 : 0, ok ? 1 : 0, pending ? 1 : 0);
+                break;
+            }
+        }
+    }
     line("enddispatch %zu", nq);
     std::fflush(stdout);
     return 0;
